@@ -607,6 +607,8 @@ func (s *rstate) eval(e gen.Expr) (interface{}, error) {
 		return f, nil
 	case *gen.EStr:
 		return e.S, nil
+	case *gen.EStrExpr:
+		return e.S, nil
 	case *gen.EBool:
 		return e.V, nil
 	case *gen.ENull:
